@@ -59,7 +59,8 @@ impl PostIoWork {
             for (_, leaf_entry) in worker_output.leaves_tracker.inner {
                 if let Some((leaf, pn)) = leaf_entry.inserted {
                     #[cfg(nomt_verif)]
-                    crate::beatree::leaf_cache_verif::observe_insert(leaf_cache, pn, &leaf);
+                    let _verif_order =
+                        crate::beatree::leaf_cache_verif::observe_insert(leaf_cache, pn, &leaf);
                     leaf_cache.insert(pn, leaf);
                 }
             }
